@@ -261,6 +261,9 @@ func (f *serverFactory) Nodes() []models.Node          { return nil }
 // many queries and do not check the one-response-per-request clause may lower it.
 var DupWait = time.Millisecond
 
+// QueryTimeout bounds one Query (root context, task contexts, and the wait for a leaf's response).
+var QueryTimeout = 60 * time.Second
+
 // QueryResult is what one query produced.
 type QueryResult struct {
 	Result    *commonmodels.ResultSet
@@ -299,14 +302,14 @@ func (b *Box) Query(q string, tr timeutil.TimeRange, lay Layout) *QueryResult {
 	ch := &chooser{db: b.DBName, opt: b.Opt, plan: plan}
 	tm := &recordingTransport{}
 	rootNode := models.StatelessNode{HostIP: "10.0.0.100", GRPCPort: 9000}
-	ctx, cancel := context.WithTimeout(context.Background(), 60*time.Second)
+	ctx, cancel := context.WithTimeout(context.Background(), QueryTimeout)
 	defer cancel()
 	b.reqSeq++
 	req := models.NewRequest(rootNode.Indicator(), b.DBName, q)
 	root := queryctx.NewRootMetricContext(&queryctx.RootMetricContextDeps{
 		Ctx: ctx, Request: req, Database: b.DBName, CurrentNode: rootNode, Statement: qs, Choose: ch, TransportMgr: tm,
 	})
-	tracker := trackerpkg.NewStageTracker(flow.NewTaskContextWithTimeout(ctx, 60*time.Second))
+	tracker := trackerpkg.NewStageTracker(flow.NewTaskContextWithTimeout(ctx, QueryTimeout))
 	root.SetTracker(tracker)
 	var pipeErr error
 	pipeDone := false
@@ -333,7 +336,7 @@ func (b *Box) Query(q string, tr timeutil.TimeRange, lay Layout) *QueryResult {
 		st := &stream{ch: make(chan *protoCommonV1.TaskResponse, 4)}
 		node := &models.StatefulNode{StatelessNode: parseNode(l.Node), ID: models.NodeID(i + 1)}
 		proc := query.NewLeafTaskProcessor(node, b.Engine, &serverFactory{s: st})
-		tctx := flow.NewTaskContextWithTimeout(ctx, 60*time.Second)
+		tctx := flow.NewTaskContextWithTimeout(ctx, QueryTimeout)
 		if err := proc.Process(tctx, st, r); err != nil {
 			// the task server answers a failed Process with an error response (app/*/rpc task handler)
 			resps[i] = &protoCommonV1.TaskResponse{RequestID: r.RequestID, RequestType: r.RequestType, Completed: true, ErrMsg: err.Error()}
@@ -344,7 +347,7 @@ func (b *Box) Query(q string, tr timeutil.TimeRange, lay Layout) *QueryResult {
 		case resp := <-st.ch:
 			resps[i] = resp
 			res.LeafErrs[i] = resp.ErrMsg
-		case <-time.After(30 * time.Second):
+		case <-time.After(leafWait()):
 			res.NoReply = append(res.NoReply, i)
 		}
 		// a second response for one request would be a violation of "one response per request"
@@ -382,6 +385,13 @@ func (b *Box) Query(q string, tr timeutil.TimeRange, lay Layout) *QueryResult {
 	}
 	res.Result, _ = out.(*commonmodels.ResultSet)
 	return res
+}
+
+func leafWait() time.Duration {
+	if QueryTimeout < 30*time.Second {
+		return QueryTimeout
+	}
+	return 30 * time.Second
 }
 
 func parseNode(ind string) models.StatelessNode {
